@@ -4,6 +4,9 @@
 From Coq Require Import QArith.
 Require Import PPLV.Base.FM PPLV.Base.Sys PPLV.Base.Gens PPLV.Poly.PolyOps PPLV.Base.Sup PPLV.Poly.PolyQuery.
 Require Import PPLV.Powerset.PS PPLV.Powerset.PSDom PPLV.Powerset.UnionIncl PPLV.Powerset.PSPoly PPLV.Powerset.Cow.
+(* grid disjuncts: the verified lattice engine (Grid/*.v) through the wrappers of Product/PRPJudge.v: exact membership of a rational
+   point in a congruence, exact inclusion of grids, generators of a congruence system *)
+Require Import PPLV.Grid.GridSem PPLV.Grid.GridRef PPLV.Product.PRP PPLV.Product.PRPJudge.
 Require Extraction.
 Require Import ExtrOcamlBasic.
 Extraction Language OCaml.
@@ -15,6 +18,7 @@ Extraction "pset.ml"
   q_is_empty q_is_universe q_contains q_is_disjoint q_equals empty_sys false_sys
   poly_dom Omega Collapse CollapseN AddDisjunct Lub Meet PairwiseApply Entails IsBottom IsTop MapAssign
   PairwiseReduce CheckReduced never mk_ps seq reduced is_omega_reduced add_end strictly_contains_ps StrictlyContains q_strictly_contains concatenate_ps always
+  mem_pcg_b j_grid_gens j_grid_incl j_grid_empty j_qadd j_qmul j_qmake j_affine_image j_affine_preimage j_remove_higher
   union_incl unions_incl unions_equiv unions_disjoint is_difference
   run_cow run_values read_cow read_val step stepv init initv count hs heap refs pset.
 Cd "../../coq".
